@@ -10,6 +10,7 @@ pub mod c07;
 pub mod c08;
 pub mod c09;
 pub mod c10;
+pub mod c11;
 pub mod c12;
 pub mod c13;
 pub mod c15;
@@ -18,7 +19,7 @@ pub mod c19;
 pub mod c20;
 
 pub fn all_ids() -> Vec<&'static str> {
-    vec!["C01", "C02", "C03", "C04", "C05", "C06", "C07", "C08", "C09", "C10", "C12", "C13", "C15", "C16", "C19", "C20"]
+    vec!["C01", "C02", "C03", "C04", "C05", "C06", "C07", "C08", "C09", "C10", "C11", "C12", "C13", "C15", "C16", "C19", "C20"]
 }
 
 pub fn get(id: &str) -> Option<Property> {
@@ -33,6 +34,7 @@ pub fn get(id: &str) -> Option<Property> {
         "C08" => Some(c08::property()),
         "C09" => Some(c09::property()),
         "C10" => Some(c10::property()),
+        "C11" => Some(c11::property()),
         "C12" => Some(c12::property()),
         "C13" => Some(c13::property()),
         "C15" => Some(c15::property()),
